@@ -84,6 +84,40 @@ def run_transition(ctx, w, tb, only_states=None, rule="T1"):
     return role
 
 
+def pointwise(ctx, w, tb, role, rule="T1x"):
+    """Thorough tier: the comparison with the reference is repeated for EVERY
+    Unicode scalar value individually (not per atom): 14 x 1,112,064 lookups.
+    This cross-checks the interval partition itself."""
+    ctx.rule(rule, "every (state, code point) pair individually: extracted cell of the code point's atom == reference transition")
+    role_of = {v: k for k, v in role.items() if v}
+    bad = 0
+    total = 0
+    import bisect
+    starts = [a[0] for a in tb.atoms]
+    for st in tb.states:
+        cache = {}
+        for a in tb.atoms:
+            c = tb.cell(st, a[0])
+            oa, oc, extra = observed_action(c, role_of)
+            cache[a] = (c.next_state, oa if not extra else oa + "+" + "+".join(extra), oc)
+        for x in range(0, 0x110000):
+            if 0xD800 <= x < 0xE000:
+                continue
+            a = tb.atoms[bisect.bisect_right(starts, x) - 1]
+            rn, ra, rc = REF.transition(st, x)
+            if ra == "none" and rn == st:
+                ra = "ignore"
+            total += 1
+            if cache[a] != (rn, ra, rc):
+                bad += 1
+                if bad <= 10:
+                    ctx.violation(rule, "%s/U+%04X" % (st, x), "state %s, U+%04X: reference (%s,%s,%s) vs code %s" % (st, x, rn, ra, rc, cache[a]))
+    if bad == 0:
+        ctx.ok(rule, "all", {"pairs_compared": total})
+    ctx.rule_counts[rule] = total
+    ctx.extra["pointwise_pairs"] = total
+
+
 def run(ctx, w):
     tb = tables.parser_tables(w)
     ctx.explanation = (
@@ -101,6 +135,8 @@ def run(ctx, w):
     ctx.exhaustive = True
     role = run_transition(ctx, w, tb)
     ctx.floor("T1", 14 * 20, "transition cells")
+    if ctx.tier == "thorough":
+        pointwise(ctx, w, tb, role)
     ctx.extra["atoms"] = len(tb.atoms)
     ctx.extra["dispatchers"] = role
 
